@@ -18,6 +18,7 @@ STUBS = [
     "np.vdot, np.linalg.norm, np.real/imag/angle, np.isscalar, np.issubdtype(object, complexfloating) -> definitions on SymK",
     "thresh._soft_thresh/_hard_thresh (nb.vectorize) -> np.frompyfunc of the DUFunc's own py_func",
     "range inside sigpy.interp accepts integral floats (numba semantics); NUMBA_DISABLE_JIT=1 runs @nb.jit kernels as Python",
+    "np.angle(z) on symbolic z -> fresh theta with cos(theta)|z| = Re z, sin(theta)|z| = Im z; np.isinf/np.isnan of symbolic values -> False",
     "sigpy.util.randn(dtype=object) -> float64 start vector (MaxEig on symbolic problems)",
     "reals for floats: float constants taken at their exact rational value; rounding outside the claim",
 ]
@@ -236,6 +237,33 @@ def install():
             return out
         return _orig["imag"](x)
     np.imag = imag
+
+    def angle(x, deg=False):
+        if isinstance(x, SymK) and not deg:
+            return x.angle()
+        if _isobj(x) and not deg:
+            out = np.empty(x.shape, dtype=object)
+            for i in np.ndindex(*x.shape):
+                out[i] = SymK.lift(x[i]).angle()
+            return out
+        return _orig["angle"](x, deg=deg)
+    np.angle = angle
+
+    _orig["isinf"], _orig["isnan"] = np.isinf, np.isnan
+
+    def _finite_pred(name):
+        def f(x, *a, **k):
+            if isinstance(x, SymK):
+                return False
+            if _isobj(x):
+                out = np.zeros(x.shape, dtype=bool)
+                for i in np.ndindex(*x.shape):
+                    if not isinstance(x[i], SymK):
+                        out[i] = bool(_orig[name](x[i]))
+                return out
+            return _orig[name](x, *a, **k)
+        return f
+    np.isinf, np.isnan = _finite_pred("isinf"), _finite_pred("isnan")
 
     def isscalar(x):
         return isinstance(x, SymK) or _orig["isscalar"](x)
